@@ -438,25 +438,4 @@ Proof.
     rewrite ?Hc1, ?Hc2, ?Hf1, ?Hf2; auto; split; auto; discriminate.
 Qed.
 
-(* ---------- EXT-X-MEDIA ---------- *)
-Definition opt_q (k : string) (o : option string) : list (string * aval) :=
-  match o with Some x => [(k, AQ x)] | None => [] end.
-
-Definition rendition_attrs (r : MultivariantRendition) : list (string * aval) :=
-  [("TYPE", AU (r_type r)); ("GROUP-ID", AQ (r_groupid r))]
-  ++ opt_list (negb (String.eqb (r_language r) "")) ("LANGUAGE", AQ (r_language r))
-  ++ opt_list (negb (String.eqb (r_name r) "")) ("NAME", AQ (r_name r))
-  ++ opt_list (r_autoselect r) ("AUTOSELECT", AU "YES")
-  ++ opt_list (r_default r) ("DEFAULT", AU "YES")
-  ++ opt_list (r_forced r) ("FORCED", AU "YES")
-  ++ opt_q "CHANNELS" (r_channels r) ++ opt_q "URI" (r_uri r) ++ opt_q "INSTREAM-ID" (r_instreamid r).
-
-Lemma rendition_marshal_render r :
-  rendition_marshal r = "#EXT-X-MEDIA:" ++ render_attrs (rendition_attrs r) ++ lf.
-Proof.
-  unfold rendition_marshal, rendition_attrs, opt_list, opt_q.
-  destruct (String.eqb (r_language r) ""), (String.eqb (r_name r) ""), (r_autoselect r), (r_default r),
-    (r_forced r), (r_channels r), (r_uri r), (r_instreamid r); norm_str; reflexivity.
-Qed.
-
 End WithOracles.
